@@ -85,6 +85,16 @@ KNOWN = {
     # uniform u is unaffected.)  The main search checks the reflected relation there;
     # a case with "strict": true checks the stated one (probe).
     "exp2d_ppf_survival": True,
+    # TPLGaussian with len_low > 0: the first-order branch (z <= 0.1) is switched
+    # separately for the two terms of the difference; in the band between the two
+    # switches the error of one term is amplified by the cancellation (+28 % at
+    # len_low/len_scale = 300).  The main search uses the rigorous bound of the
+    # documented approximation (eps * kT, see tplgaussian_eps).
+    "tplgau_branch_band": True,
+    # default Hankel transform at k = 0 (scipy quad over [0, inf)): a correlation
+    # that has decayed at r = 0.0043 (outermost node of the first 15-point rule)
+    # is not seen: spectral_density(0) = 0 for compact models with range < ~0.004
+    "hankel_k0_narrow_support": True,
 }
 
 ANALYTIC = set(gens.ANALYTIC_SPECTRUM)
@@ -113,21 +123,26 @@ HANKEL_A_MIN = 1e-2
 N_A = 12
 
 
-def tplgaussian_bound(dim, hurst, len_low):
-    """A-priori bound of the documented first-order branch of tpl_gau_spec_dens.
+def tplgaussian_eps(dim, hurst):
+    """Relative error bound of the documented first-order branch of tpl_gau_spec_dens.
 
-    For z = (k len/2)^2 <= 0.1 the code uses gamma(a,z)/z^a ~ 1/a - z/(a+1);
-    the dropped term is z^2/(2(a+2)), relative to 1/a at most 0.005 a/(a+2).
-    With len_low > 0 the spectrum is the difference of two such terms at nearly
-    the same k; the error (~ len^(d+4+2H)) grows faster with the length than the
-    value (~ len^(d+2H)), so the relative error of the difference is amplified
-    by at most (d+4+2H)/(d+2H).
+    For z = (k len/2)^2 <= 0.1 the code uses gamma(a,z)/z^a ~ 1/a - z/(a+1),
+    a = hurst + d/2; the series is alternating with decreasing terms, the
+    dropped part is at most z^2/(2(a+2)) <= 0.005/(a+2), i.e. 0.005 a/(a+2)
+    relative to the value ~1/a.  (1.2e-3 ... 2.8e-3 for d = 1..3.)
+
+    With len_low > 0 the density is (fu S_up - fl S_low)/(fu - fl), each term
+    with that relative error, so |error| <= eps (fu S_up + fl S_low)/(fu - fl).
+    Window masses and S(0) of the single-scale terms increase with the scale and
+    are therefore bounded by the value of the truncated model, which gives the
+    rigorous bounds  eps * kT * (window mass)  and  eps * kT * S(0)  with
+    kT = (fu + fl)/(fu - fl).  Inside the band where only one of the two terms
+    uses the approximation (2 sqrt(0.1)/len_up < k < 2 sqrt(0.1)/len_low) this
+    bound is actually reached: +28 % at len_low = 90, len_scale = 0.29 (finding
+    "tplgau_branch_band"; a probe with "strict": true holds the density to eps).
     """
     a = hurst + dim / 2.0
-    b = 0.005 * a / (a + 2.0)
-    if len_low > 0:
-        b *= (dim + 4.0 + 2.0 * hurst) / (dim + 2.0 * hurst)
-    return b
+    return 0.005 * a / (a + 2.0)
 
 
 # ---------------------------------------------------------------------------
@@ -290,6 +305,8 @@ def _ctx(case):
         c.tags["kind"] = "matern_large_nu_pair"
     if c.cls == "JBessel" and c.nu - c.dim / 2.0 + 1.0 > 5.89:
         c.tags["kind"] = "jbessel_gamma_cap"
+    if c.cls == "TPLGaussian" and c.kT > 1.0 and c.strict:
+        c.tags["kind"] = "tplgau_branch_band"
     alpha = float(getattr(m, "alpha", 2.0))
     if (c.cls in ("Stable", "TPLStable") and alpha < 0.6) or (c.cls == "Rational" and alpha < 1.0 and c.dim >= 2):
         c.tags["kind"] = "hankel_heavy_tail"
@@ -306,7 +323,7 @@ def _with_model(c, model):
 def _budget(c):
     """Relative budget of the analytic classes."""
     if c.cls == "TPLGaussian":
-        return tplgaussian_bound(c.dim, float(c.model.hurst), c.len_low)
+        return tplgaussian_eps(c.dim, float(c.model.hurst)) * (1.0 if c.strict else c.kT)
     return BUDGET_ANALYTIC * c.kT
 
 
@@ -387,6 +404,8 @@ def check_parseval(case, rec):
     rec.label(c.cls, f"dim{dim}", "analytic" if c.analytic else "hankel")
     if c.len_low > 0:
         rec.label("len_low>0")
+    if c.kT > 10.0:
+        rec.label("TPL kT>10")  # strongly cancelling difference formula: wide tolerance
     if case.get("dim0"):
         rec.label("dim_assigned")
     a_rel, a_list = _a_grid(c, case["shift"])
@@ -513,7 +532,14 @@ def check_pointwise(case, rec):
     S0_or, e0 = _oracle_S(c, 0.0)
     require(S0_or > 0 and np.isfinite(S0_or), f"oracle: S(0) = {S0_or} (harness)", dict(tags, kind="oracle"))
     interesting = False
+    narrow = False
+    if not c.analytic:
+        with common.quiet():
+            narrow = float(c.model.correlation(np.array([0.0044]))[0]) < 1e-3
     for kl, k, s in zip(case["kl"], ks, lib_S):
+        if k == 0.0 and narrow and KNOWN["hankel_k0_narrow_support"] and not c.strict:
+            rec.exclude("hankel_k0_narrow_support")
+            continue
         if k == 0.0:
             o, e = S0_or, e0
         else:
@@ -523,7 +549,7 @@ def check_pointwise(case, rec):
             # TPLGaussian: bound of its documented first-order branch
             tol = BUDGET_ANALYTIC * c.kT * (S0_or + abs(o)) + 10.0 * e
             if c.cls == "TPLGaussian":
-                tol += tplgaussian_bound(c.dim, float(c.model.hurst), c.len_low) * abs(o)
+                tol += _budget(c) * S0_or
         else:
             # accuracy budget of HANKEL_DEFAULT away from the small-k region
             tol = 2e-2 * S0_or + 10.0 * e
@@ -536,6 +562,8 @@ def check_pointwise(case, rec):
         kind = tags.get("kind", "pointwise")
         if not c.analytic and 0.0 < kl < 0.3 and "kind" not in tags:
             kind = "hankel_small_k"  # k * (integral scale) < 0.3, default Hankel transform
+        if not c.analytic and k == 0.0 and narrow and "kind" not in tags:
+            kind = "hankel_k0_narrow_support"
         require(
             err <= tol,
             f"{c.cls} d={c.dim}: spectral_density(k) = {float(s):.12g} at k*len = {k * c.L:.4g}, transform of "
@@ -790,9 +818,9 @@ SUBS = [
         _gp(sorted(ANALYTIC)),
         check_parseval,
         quick=1200,
-        thorough=40000,
+        thorough=36000,
         shards_quick=4,
-        shards_thorough=6,
+        shards_thorough=5,
         doc="Gaussian-weighted Parseval identity, analytic spectra (+ var factor, sign, finiteness, dim assignment)",
     ),
     Sub(
@@ -800,9 +828,9 @@ SUBS = [
         _gp(sorted(gens.HANKEL_SPECTRUM)),
         check_parseval,
         quick=400,
-        thorough=12000,
+        thorough=10000,
         shards_quick=4,
-        shards_thorough=5,
+        shards_thorough=4,
         doc="the same for the default numerical (Hankel) spectra, declared accuracy budget",
     ),
     Sub(
@@ -810,9 +838,9 @@ SUBS = [
         gen_pointwise,
         check_pointwise,
         quick=240,
-        thorough=6000,
+        thorough=4000,
         shards_quick=4,
-        shards_thorough=3,
+        shards_thorough=4,
         shrink_quick=False,
         doc="S(k) against QUADPACK Fourier rules (d=1,3) / J0-zero summation (d=2); continuity at k -> 0",
     ),
@@ -823,7 +851,7 @@ SUBS = [
         quick=600,
         thorough=15000,
         shards_quick=4,
-        shards_thorough=2,
+        shards_thorough=3,
         doc="spectral_rad_pdf = surface factor * |S|, mass, cdf/ppf, dist_func, has_cdf/has_ppf",
     ),
 ]
